@@ -181,6 +181,10 @@ def cases(tier, seed, i, n):
         # (iii) bytewise for every stream (short and long), (iv) random cut sets
         for si, st in enumerate(cat):
             yield dict(kind='var', src='cat', si=si, seg='bytewise', cutseed=0)
+            # the same once more with another WebSocket object alive and active between the reads (vf/companion.py);
+            # three companions that start with different kinds of traffic
+            for ck in range(3):
+                yield dict(kind='var', src='cat', si=si, seg='bytewise', cutseed=0, _env={'companion': si * 3 + ck})
             for r in range(3 if tier == 'quick' else 200):
                 yield dict(kind='var', src='cat', si=si, seg='random', cutseed=seed * 100 + r)
         for li in range(24 if tier == 'quick' else 1600):
